@@ -777,3 +777,35 @@ def installed(promax=True):
     finally:
         for mod, name, old in reversed(saved):
             setattr(mod, name, old)
+
+
+@contextlib.contextmanager
+def recorders(B):
+    """float mode: record the keyword arguments that reach the randomised solvers (results untouched)"""
+    import xeofs.linalg.decomposer as dec
+    import xeofs.linalg._numpy._svd as nsvd
+
+    B.solver_calls = []
+    saved = []
+
+    def wrap(mod, name, label):
+        real = getattr(mod, name)
+
+        def w(M, *a, **k):
+            kw = dict(k)
+            if a:
+                kw["n_components" if label == "randomized_svd" else "k"] = a[0]
+            B.solver_calls.append({"stub": label, "kwargs": kw})
+            return real(M, *a, **k)
+
+        saved.append((mod, name, real))
+        setattr(mod, name, w)
+
+    for mod in (dec, nsvd):
+        wrap(mod, "randomized_svd", "randomized_svd")
+        wrap(mod, "complex_svd", "svds")
+    try:
+        yield
+    finally:
+        for mod, name, real in reversed(saved):
+            setattr(mod, name, real)
